@@ -25,6 +25,40 @@ class C17(C16):
                                    ["/ln_out/secret.csv"], ["ABS_OUTSIDE/secret.csv"], ["//" + tree["files"][0]["rel"]]])
         return cfg
 
+    def directed(self):
+        """Every escape route x every placement (root item, include in a root file, include in a nested file, an
+        entry met while listing a folder)."""
+        out = []
+        t = lambda n: {"k": "table", "n": n, "pad": 0}
+        links = [["ln_out", "../outside"], ["alias.csv", "../outside/secret.csv"], ["a/alias2.csv", "../../outside/secret.csv"],
+                 ["c/ln_abs", "ABS_OUTSIDE"], ["a/ln_sib", "../../root_x"]]
+        # (specification as written from the root folder, from folder a)
+        escapes = [("ln_out/secret.csv", "../ln_out/secret.csv"), ("alias.csv", "alias2.csv"), ("a/alias2.csv", "../alias.csv"),
+                   ("c/ln_abs/s2.csv", "../c/ln_abs/s2.csv"), ("../root_x/secret.csv", "../../root_x/secret.csv"),
+                   ("a/ln_sib/secret.csv", "ln_sib/secret.csv"), ("../outside/secret.csv", "../../outside/secret.csv"),
+                   ("ln_out", "../ln_out"), ("a/ln_sib", "ln_sib"), ("ABS_OUTSIDE/s2.csv", "ABS_OUTSIDE/s2.csv"),
+                   ("a/../../root_x/secret.csv", "./../../root_x/secret.csv")]
+        for from_root, from_a in escapes:
+            for place in ("root-item", "root-file", "nested-file"):
+                files = [{"rel": "f1.csv", "blocks": [t(1)]}, {"rel": "a/f2.csv", "blocks": [t(2)]}]
+                roots = ["/f1.csv"]
+                if place == "root-item":
+                    roots = ["/" + from_root if not from_root.startswith("ABS") else from_root]
+                elif place == "root-file":
+                    files[0]["blocks"].append({"k": "include", "lines": [from_root]})
+                else:
+                    files[0]["blocks"].append({"k": "include", "lines": ["a/f2.csv"]})
+                    files[1]["blocks"].append({"k": "include", "lines": [from_a]})
+                for raising in (False, True):
+                    out.append({"tree": {"folders": ["", "a", "c"], "links": links, "files": files},
+                                "cfg": {"use_root": True, "roots": roots, "raising": raising, "allow_include": True,
+                                        "start_pattern": None}})
+        # folders whose listing meets an outward link
+        for spec in ("/", "/a"):
+            out.append({"tree": {"folders": ["", "a", "c"], "links": links, "files": [{"rel": "f1.csv", "blocks": [t(1)]}]},
+                        "cfg": {"use_root": True, "roots": [spec], "raising": False, "allow_include": True, "start_pattern": None}})
+        return out
+
     def oracle(self, case, obs):
         fails = []
         if obs.get("proto"):
@@ -33,13 +67,13 @@ class C17(C16):
         for e in obs["events"]:
             if e[0] in ("open", "list"):
                 p = e[1]
-                real = os.path.normpath(p)
+                real = obs.get("real", {}).get(p) or os.path.normpath(p)     # symbolic links followed
                 if not (real == root or real.startswith(root + os.sep)):
                     fails.append(f"escape: {e[0]} of {os.path.relpath(p, obs['base'])} which is outside the root folder")
                 # the path handed to open/listdir is canonical: inside the root also after symlink resolution
                 # (the tree is gone by now; links were recorded in the case)
         for e in obs["events"]:
-            if e[0] == "yield" and e[1] == "TABLE" and e[3] in ("t777", "t778"):
+            if e[0] == "yield" and e[1] == "TABLE" and e[3] in ("t777", "t778", "t779"):
                 fails.append(f"escape: table {e[3]} of a file outside the root folder was loaded")
         if obs["code"] == 3 and not any(x in (obs["exc"] or "") for x in ("FileNotFoundError", "RuntimeError", "Symlink loop",
                                                                           "Too many levels", "NotADirectoryError", "IsADirectoryError",
